@@ -331,7 +331,7 @@ fn devnan_ev(case: &Value, out: &mut Vec<Value>) {
     let b = jints(&case["b"]);
     let shape = shape_of(case, a.len());
     let (l1, l2) = (lay_of(case, "lay1", &shape), lay_of(case, "lay2", &shape));
-    let mk = |v: i64| -> f64 { if v == 99 { f64::NAN } else { v as f64 / 4.0 } };
+    let mk = |v: i64| -> f64 { if v == 99 { nan64() } else { v as f64 / 4.0 } };
     let (pa, pb) = (l1.build(&a.iter().map(|&v| mk(v)).collect::<Vec<_>>(), |_| 77.0), l2.build(&b.iter().map(|&v| mk(v)).collect::<Vec<_>>(), |_| 55.0));
     let (va, vb) = (l1.view(&pa), l2.view(&pb));
     let c = |r: Result<Result<usize, ndarray_stats::errors::MultiInputError>, ()>| -> i64 { match r { Ok(Ok(v)) => v as i64, _ => -1 } };
